@@ -361,6 +361,7 @@ def run(tier, seed):
     si = sim_items(tier)
     H, D = (4, 1) if tier == "quick" else (5, 2)
     col.merge(stepcheck.explore(si, [mon_c12], H, D, who_fn=lambda sp: stepcheck.default_who(sp, facilities=False), seed=seed))
+    col.merge(stepcheck.explore(stepcheck.restarted_items(si[:: (5 if tier == "quick" else 2)], ks=(1, 2, 3)), [mon_c12], 0, 0, seed=seed))  # states reset, logs and clock kept
     # blocks of consecutive project-wide absence steps (the clock goes on, so every update moves all values)
     blocks = [(sp, dict(o, absence=list(ab))) for sp, o in si[:: (3 if tier == "quick" else 1)] for ab in ((1, 2), (0, 1, 2), (2, 3, 4), (1, 2, 4, 5))]
     col.merge(stepcheck.explore(blocks, [mon_c12], 0, 0, seed=seed))
